@@ -282,7 +282,7 @@ def _callers_gated(ctx, pe, fn: Func, gates: Tuple[str, ...]) -> bool:
 
 
 def rule_dom(ctx) -> None:
-    pe = PathEval(ctx, depth=2)
+    pe = PathEval(ctx, depth=4)
     n_uses = 0
     n_reads = 0
     for q in DOM_FUNCS:
@@ -358,7 +358,7 @@ def _dead_key(tables: Dict[str, Set[str]], atom: str) -> bool:
 def rule_dom_all(ctx) -> None:
     """who-may-read: every other engine function that reads a gated subtree uses it gated, reads a key the validator rejects,
     or is a confirmed instance"""
-    pe = PathEval(ctx, depth=2)
+    pe = PathEval(ctx, depth=4)
     tables = _validator_tables(ctx)
     n_fn = n_readers = 0
     used_confirmed: Set[Tuple[str, str]] = set()
@@ -405,7 +405,7 @@ def rule_dom_all(ctx) -> None:
 
 
 def rule_subgate(ctx) -> None:
-    pe = PathEval(ctx, depth=2)
+    pe = PathEval(ctx, depth=4)
     for q, sub in (("clematis.engine.util.metrics:gate_on", "cfg:perf.metrics.report_memory"),):
         fn = ctx.func(q)
         cfg = ctx.cfg(fn)
@@ -455,7 +455,7 @@ ARTEFACTS = {
 
 
 def rule_art(ctx) -> None:
-    pe = PathEval(ctx, depth=2)
+    pe = PathEval(ctx, depth=4)
     fn = ctx.func(RUN_TURN)
     cfg = ctx.cfg(fn)
     n_w = 0
@@ -490,7 +490,7 @@ def rule_art(ctx) -> None:
     for n in acfg.nodes:
         for c in node_calls(n):
             if call_tail(c) == "_emit_quality_trace":
-                pe2 = PathEval(ctx, depth=2)
+                pe2 = PathEval(ctx, depth=4)
                 need = ("cfg:perf.enabled", "cfg:perf.metrics.report_memory", "cfg:t2.quality.shadow")
                 missing = [ga for ga in need if not gate_on(ctx, aq, n, pe2, ga)]
                 ctx.check(not missing, "C02.ART", f"{aq.qual}/shadow-trace", aq.loc(c), "the quality shadow trace needs perf.enabled, perf.metrics.report_memory and t2.quality.shadow",
@@ -498,7 +498,7 @@ def rule_art(ctx) -> None:
 
 
 def rule_mut(ctx) -> None:
-    pe = PathEval(ctx, depth=2)
+    pe = PathEval(ctx, depth=4)
     fn = ctx.func(RUN_TURN)
     cfg = ctx.cfg(fn)
     sites = []
